@@ -79,7 +79,7 @@ if TYPE_CHECKING:
     from .file import _GitFile
 
 from .errors import PackedRefsException, RefFormatError
-from .file import GitFile, ensure_dir_exists
+from .file import FileLocked, GitFile, ensure_dir_exists
 from .objects import ZERO_SHA, ObjectID, git_line, valid_hexsha
 
 Ref = NewType("Ref", bytes)
@@ -1042,12 +1042,20 @@ class DiskRefsContainer(RefsContainer):
                 self._packed_refs_key = _packed_refs_key(os.fstat(f.fileno()))
         return self._packed_refs
 
-    def add_packed_refs(self, new_refs: Mapping[Ref, ObjectID | None]) -> None:
+    def add_packed_refs(
+        self,
+        new_refs: Mapping[Ref, ObjectID | None],
+        prune_only_if_unchanged: bool = False,
+    ) -> None:
         """Add the given refs as packed refs.
 
         Args:
           new_refs: A mapping of ref names to targets; if a target is None that
             means remove the ref
+          prune_only_if_unchanged: If True, the loose file of a ref is only
+            removed while holding that ref's lock and only if it still holds
+            the value that was packed (used by pack_refs, whose values were
+            read without holding the ref locks)
         """
         if not new_refs:
             return
@@ -1076,15 +1084,39 @@ class DiskRefsContainer(RefsContainer):
             # between must still find the ref.  Please note that this
             # bypasses remove_if_equals as we don't want to affect packed
             # refs in here.
-            for ref in new_refs:
-                with suppress(OSError):
-                    os.remove(self.refpath(ref))
+            for ref, target in new_refs.items():
+                if prune_only_if_unchanged and target is not None:
+                    self._prune_loose_ref(ref, target)
+                else:
+                    with suppress(OSError):
+                        os.remove(self.refpath(ref))
         finally:
             # Do not stat the path and associate that identity with the data
             # just written: another writer can replace packed-refs after the
             # lock is released but before the stat. Reload on the next access
             # instead.
             self._invalidate_packed_refs_cache()
+
+    def _prune_loose_ref(self, name: Ref, expected: ObjectID) -> None:
+        """Remove the loose file of a ref that has just been packed.
+
+        The file is only removed while holding the ref's own lock, and only
+        if it still contains the value that was packed: an update made since
+        that value was read must not be thrown away (the loose file keeps
+        overriding the packed entry).
+        """
+        filename = self.refpath(name)
+        try:
+            f = GitFile(filename, "wb")
+        except (FileLocked, OSError):
+            # Being updated right now, or there is no loose file to prune.
+            return
+        try:
+            if self.read_loose_ref(name) == expected:
+                with suppress(OSError):
+                    os.remove(filename)
+        finally:
+            f.abort()
 
     def get_peeled(self, name: Ref) -> ObjectID | None:
         """Return the cached peeled value of a ref, if available.
@@ -1467,7 +1499,9 @@ class DiskRefsContainer(RefsContainer):
                     pass
 
         if refs_to_pack:
-            self.add_packed_refs(refs_to_pack)
+            # The values were read without holding the ref locks: do not
+            # remove a loose file that has been updated since.
+            self.add_packed_refs(refs_to_pack, prune_only_if_unchanged=True)
 
 
 def _split_ref_line(line: bytes) -> tuple[ObjectID, Ref]:
